@@ -18,7 +18,8 @@ def indep_normalize(src: str) -> str:
     return re.sub(r"\r\n?", "\n", src).replace("\x00", "\ufffd")
 
 
-def run_generic(ctx, pid, kind, predicate, extra_docs, trusted, rule_text, cfg_filter=None, n_quick=(500, 2500), n_thorough=(10000, 80000)):
+def run_generic(ctx, pid, kind, predicate, extra_docs, trusted, rule_text, cfg_filter=None, n_quick=(500, 2500), n_thorough=(10000, 80000),
+                fixed_extra=None):
     rep: Reporter = ctx["rep"]
     tier, seed, proofs = ctx["tier"], ctx["seed"], ctx["proofs"]
     rng = rng_for(pid, seed)
@@ -31,7 +32,7 @@ def run_generic(ctx, pid, kind, predicate, extra_docs, trusted, rule_text, cfg_f
         return cfg_filter(cfg) if cfg_filter else cfg
 
     def mkdoc(r, k):
-        d = extra_docs(r) if extra_docs and k % 3 == 0 else docs.random_doc(r)
+        d = extra_docs(r) if extra_docs and k % 3 == 0 else (docs.token_soup(r) if k % 5 == 1 else docs.random_doc(r))
         if k % 7 == 3:
             # other line-end encodings: the property speaks about the normalised input
             d = "".join(r.choice(["\r", "\r\n", "\n"]) if c == "\n" else c for c in d)
@@ -41,6 +42,7 @@ def run_generic(ctx, pid, kind, predicate, extra_docs, trusted, rule_text, cfg_f
     # the hand-made corner documents first, each under the two configurations that switch every rule on
     fixed = [(dict(configs.STANDARD[ci], ruler2_off=[]), d) for d in docs.corner_docs() for ci in (2, 4)]
     fixed += [(dict(docs.CODE_OFF), d) for d in docs.code_off_docs()]
+    fixed += [(dict(configs.STANDARD[2], ruler2_off=[]), d) for d in (fixed_extra or [])]
     if cfg_filter:
         fixed = [(cfg_filter(c), d) for c, d in fixed]
     cases = [(c, "parse", d, None) for c, d in fixed] + cases
